@@ -57,6 +57,9 @@ type fnDump struct {
 	skipped  string
 	nOrigins int
 	nReturns int // number of Return instructions
+	// memory rows
+	nStores, nLoads, nAliasPairs, nMemContainers, nMemNoQuery int
+	memLine                                                   string // oracle verdict on closedMem
 	vidOf    func(ssa.Value) int
 }
 
@@ -458,9 +461,130 @@ func dumpFunction(state *dataflow.AnalyzerState, fn *ssa.Function, id string, ui
 			}
 		}
 	}
+	d.memRows(state, fi, flat, &sb)
 	sb.WriteString("go\n")
 	d.text = sb.String()
 	return d
+}
+
+// memRows emits the memory rows of lean/Argot/Model/IntraMem.lean: one store row per Store / MapUpdate / Send /
+// select-send (and one per container the address was computed from: FieldAddr.X, IndexAddr.X, Slice.X — what
+// markValue marks on top of the address), one load row per UnOp(*), UnOp(<-), Lookup, Index, Range, select-receive,
+// and for each store address the values of the function whose REAL pointer.Pointer (state.PointerAnalysis.Queries)
+// MayAlias the address's.
+func (d *fnDump) memRows(state *dataflow.AnalyzerState, fi *dataflow.FlowInformation, flat map[ssa.Instruction]int, sb *strings.Builder) {
+	vid := d.vidOf
+	type srow struct {
+		loc  int
+		addr ssa.Value
+		vals []ssa.Value
+	}
+	var stores []srow
+	addStore := func(loc int, addr ssa.Value, vals ...ssa.Value) {
+		stores = append(stores, srow{loc, addr, vals})
+		// containers of the address
+		for c, n := addr, 0; n < 8; n++ {
+			switch x := c.(type) {
+			case *ssa.FieldAddr:
+				c = x.X
+			case *ssa.IndexAddr:
+				c = x.X
+			case *ssa.Slice:
+				c = x.X
+			default:
+				return
+			}
+			stores = append(stores, srow{loc, c, vals})
+			d.nMemContainers++
+		}
+	}
+	for i, ins := range d.instrs {
+		switch x := ins.(type) {
+		case *ssa.Store:
+			addStore(i, x.Addr, x.Val)
+			d.kinds["mem:store"]++
+		case *ssa.MapUpdate:
+			addStore(i, x.Map, x.Key, x.Value)
+			d.kinds["mem:mapupdate"]++
+		case *ssa.Send:
+			addStore(i, x.Chan, x.X)
+			d.kinds["mem:send"]++
+		case *ssa.Select:
+			for _, st := range x.States {
+				if st.Dir == types.SendOnly {
+					addStore(i, st.Chan, st.Send)
+					d.kinds["mem:select-send"]++
+				} else if vid(st.Chan) != 0 {
+					fmt.Fprintf(sb, "ml %d %d %d\n", i, vid(st.Chan), vid(x))
+					d.nLoads++
+				}
+			}
+		case *ssa.UnOp:
+			if (x.Op == token.MUL || x.Op == token.ARROW) && vid(x.X) != 0 {
+				fmt.Fprintf(sb, "ml %d %d %d\n", i, vid(x.X), vid(x))
+				d.nLoads++
+			}
+		case *ssa.Lookup:
+			if vid(x.X) != 0 {
+				fmt.Fprintf(sb, "ml %d %d %d\n", i, vid(x.X), vid(x))
+				d.nLoads++
+			}
+		case *ssa.Index:
+			if vid(x.X) != 0 {
+				fmt.Fprintf(sb, "ml %d %d %d\n", i, vid(x.X), vid(x))
+				d.nLoads++
+			}
+		case *ssa.Range:
+			if vid(x.X) != 0 {
+				fmt.Fprintf(sb, "ml %d %d %d\n", i, vid(x.X), vid(x))
+				d.nLoads++
+			}
+		}
+	}
+	// values of the function that have a direct pointer query, in id order
+	type pv struct {
+		id int
+		v  ssa.Value
+	}
+	var pvs []pv
+	for v, id := range fi.ValueID {
+		if _, ok := state.PointerAnalysis.Queries[v]; ok {
+			pvs = append(pvs, pv{int(id) + 1, v})
+		}
+	}
+	sort.Slice(pvs, func(a, b int) bool { return pvs[a].id < pvs[b].id })
+	done := map[int]bool{}
+	for _, r := range stores {
+		a := vid(r.addr)
+		if a == 0 {
+			continue
+		}
+		var vs []int
+		for _, v := range r.vals {
+			if id := vid(v); id != 0 {
+				vs = append(vs, id)
+			}
+		}
+		fmt.Fprintf(sb, "ms %d %d %s\n", r.loc, a, joinInts(vs))
+		d.nStores++
+		if done[a] {
+			continue
+		}
+		done[a] = true
+		pa, ok := state.PointerAnalysis.Queries[r.addr]
+		if !ok {
+			d.nMemNoQuery++
+			continue
+		}
+		var bs []int
+		for _, q := range pvs {
+			if q.id != a && pa.MayAlias(state.PointerAnalysis.Queries[q.v]) {
+				bs = append(bs, q.id)
+			}
+		}
+		d.nAliasPairs += len(bs)
+		fmt.Fprintf(sb, "ma %d %s\n", a, joinInts(bs))
+	}
 }
 
 func countReal(b *ssa.BasicBlock) int {
